@@ -19,7 +19,9 @@ pub struct Frag {
 }
 
 pub fn new_stream() -> Stream {
-    Stream::new("index", REQ, "chk_index", "list frag * list N", "outcome (list (option N))")
+    let mut s = Stream::new("index", REQ, "chk_index", "list frag * list N", "outcome (list (option N))");
+    s.shard = 800;
+    s
 }
 
 /// (min,max) of the live ids of every segment of every fragment: the chunk ranges RowIdIndex::new works on
